@@ -110,8 +110,10 @@ class AsyncioEventLoop(EventLoop):
         Call all the registered idle callbacks.
         """
         try:
-            for callback in list(self._idle_callbacks.values()):
-                callback()
+            for handle, callback in list(self._idle_callbacks.items()):
+                # a callback removed by an earlier one in this pass is not called
+                if handle in self._idle_callbacks:
+                    callback()
         finally:
             self._idle_asyncio_handle = None
 
